@@ -16,7 +16,7 @@ ASSUMPTIONS = [
 
 
 def run():
-  return pairrun.run_pairs('C11', [('lv.gen_meta', 'c11_pairs', 64, 640), ('lv.gen_meta', 'c11_kf_pairs', 2, 2)], FUNCTIONS, ASSUMPTIONS,
+  return pairrun.run_pairs('C11', [('lv.gen_meta', 'c11_pairs', 64, 3200), ('lv.gen_meta', 'c11_kf_pairs', 3, 3)], FUNCTIONS, ASSUMPTIONS,
                            'DESIGN.md §3 C11',
                            rejected_is_violation=lambda r: r.get('rejected_side') == 'b')
 
